@@ -10,6 +10,7 @@
 
 `risky` selects at most one feature class that is known or suspected to break the property, so
 that an unknown failure is never hidden behind a known one."""
+import re
 import json
 
 # ------------------------------------------------------------------------------------------------
@@ -25,6 +26,15 @@ ODD_NAMES = ['a.b', 'n$1', 'my net', 'x/y', 'sig<3>', 'p:q', 'UPPER', 'MiXed', '
 
 def _uniq(rng, used, pool_plain, odd_rate, prefix):
     """a fresh name; case-insensitively distinct from the ones used so far in this scope"""
+    # a "twin" of an earlier odd name: same letters and case, other punctuation, so that both sanitise to
+    # the same EDIF identifier and the composer's rename bookkeeping has to tell them apart
+    twins = [t for t in used if isinstance(t, tuple)]
+    if twins and rng.random() < 0.5:
+        t = rng.choice(sorted(twins))
+        used.discard(t)
+        if t[1].lower() not in used:
+            used.add(t[1].lower())
+            return t[1]
     for _ in range(50):
         if rng.random() < odd_rate:
             n = rng.choice(ODD_NAMES)
@@ -34,8 +44,12 @@ def _uniq(rng, used, pool_plain, odd_rate, prefix):
             n = '%s%d' % (n, rng.randint(0, 30))
         if n.lower() not in used and n != '':
             used.add(n.lower())
+            if odd_rate > 0 and re.search(r'[^A-Za-z0-9_]', n) and rng.random() < 0.5:
+                tw = re.sub(r'[^A-Za-z0-9_]', lambda m: rng.choice([c for c in '.$/:-=' if c != m.group(0)]), n)
+                tw = tw[:1].upper() + tw[1:] if rng.random() < 0.5 else tw
+                used.add(('twin', tw))
             return n
-    k = len(used)
+    k = len([u for u in used if not isinstance(u, tuple)])
     n = '%s_%d' % (prefix, k)
     used.add(n.lower())
     return n
